@@ -6,7 +6,7 @@ from harness import core, gens
 from harness import ivl_c06 as ivl
 from harness.core import q, qlist, qmat, Case, guarded, ImplError, frac
 
-RULE = ('cases: (a) every sampled cell (real and imaginary part) of transform(x) and transform_w_scipy_fft(x) for records of 2..13 samples (odd and even, '
+RULE = ('the option `interp` that both transform functions accept is passed as True / False / not at all in (a), (b), (c), (e), (g): the array is the same whatever its value; cases: (a) every sampled cell (real and imaginary part) of transform(x) and transform_w_scipy_fft(x) for records of 2..13 samples (odd and even, '
         'integer and float valued, arrays and lists) is an `interval` goal |cell_R - observed| <= 1e-12*sum|x| on the R model (exp/cos/sin evaluated by proved enclosures); '
         '(b) shape n/2 x 2(n/2) for n up to 1025, both implementations, compared inside Coq; '
         '(c) marginal on implementation outputs: exact row sums (summed in Coq) against conj X[k]: Q model where the twiddles are 0/+-1, interval goals on the defining DFT sum otherwise (n <= 40); '
@@ -70,13 +70,18 @@ def dyadic(x):
 
 
 # ------------------------------------------------------------------ implementation calls
-def impl_transform(which, x, as_list=False, as_int=False):
+def interp_kw(interp):
+    """the `interp` option of both transform functions (None: not passed); the (n/2) x n array does not depend on it"""
+    return {} if interp is None else {'interp': interp}
+
+
+def impl_transform(which, x, as_list=False, as_int=False, interp=None):
     from eqsig import stockwell as sw
     if as_int:      # integer-valued record passed as an integer array (same real record)
         arg = np.array([int(v) for v in x], dtype=np.int64)
     else:
         arg = [float(v) for v in x] if as_list else np.array(x, dtype=float)
-    s = getattr(sw, IMPLS[which])(arg)
+    s = getattr(sw, IMPLS[which])(arg, **interp_kw(interp))
     s = np.asarray(s)
     if s.ndim != 2:
         raise ImplError('result is not a 2-d array: shape %r' % (s.shape,))
@@ -92,9 +97,9 @@ def impl_itransform(re, im):
     return out
 
 
-def impl_roundtrip(which, x):
+def impl_roundtrip(which, x, interp=None):
     from eqsig import stockwell as sw
-    s = getattr(sw, IMPLS[which])(np.array(x, dtype=float))
+    s = getattr(sw, IMPLS[which])(np.array(x, dtype=float), **interp_kw(interp))
     out = np.asarray(sw.itransform(s))
     if np.iscomplexobj(out):
         raise ImplError('itransform returned a complex array')
@@ -155,11 +160,11 @@ def replay_call(rp):
     if 'get_max_tifq' in f:
         return impl_max_tifq(a['re'], a['im'], a['dt'])
     if 'itransform o' in f:
-        return impl_roundtrip(a.get('which', 0), a['values'])
+        return impl_roundtrip(a.get('which', 0), a['values'], a.get('interp'))
     if 'itransform' in f:
         return impl_itransform(a['re'], a['im'])
     if 'values' in a:
-        return impl_transform(a.get('which', 0), a['values'], a.get('as_list', False), a.get('as_int_array', False))
+        return impl_transform(a.get('which', 0), a['values'], a.get('as_list', False), a.get('as_int_array', False), a.get('interp'))
     return None
 
 
@@ -262,9 +267,10 @@ def run(rep, rng, tier):
             x = record(rng, n, exact)
             as_list = rng.random() < 0.2
             as_int = (not as_list) and rng.random() < 0.25 and all(float(v).is_integer() for v in x)
-            s = guarded(impl_transform, which, x, as_list, as_int)
-            args = {'which': which, 'values': [float(v) for v in x], 'as_list': as_list, 'as_int_array': as_int}
-            site = IMPLS[which]
+            interp = [None, None, True, None, False, None, True][k % 7]     # the option both functions accept: same array whatever its value
+            s = guarded(impl_transform, which, x, as_list, as_int, interp)
+            args = {'which': which, 'values': [float(v) for v in x], 'as_list': as_list, 'as_int_array': as_int, 'interp': interp}
+            site = IMPLS[which] + ('[interp=%s]' % interp if interp is not None else '')
             if isinstance(s, ImplError):
                 bad(site, args, s)
                 continue
@@ -308,25 +314,29 @@ def run(rep, rng, tier):
         which = i % 2
         exact = i % 3 == 0
         x = record(rng, n, exact)
-        s = guarded(impl_transform, which, x)
-        site = 'shape:' + IMPLS[which]
-        args = {'which': which, 'values': [float(v) for v in x]}
+        interp = [None, True, True, None, False][i % 5]
+        s = guarded(impl_transform, which, x, False, False, interp)
+        site = 'shape:' + IMPLS[which] + ('[interp=%s]' % interp if interp is not None else '')
+        args = {'which': which, 'values': [float(v) for v in x], 'interp': interp}
         if isinstance(s, ImplError):
             bad(site, args, s)
             continue
         cases.append(Case('CShape (%d)%%Z (%d)%%Z %s' % (n, len(s), core.zlist([len(r) for r in s])),
                           {'function': IMPLS[which], 'args': args, 'impl': {'shape': list(s.shape)}}, site, nontrivial=True, klass=site))
-        big[i] = (n, which, x, s)
+        big[i] = (n, which, x, s, interp)
 
     # ---- (g) agreement of the two implementations (all cells for n <= 32, sampled rows above)
-    for i, (n, which, x, s) in sorted(big.items()):
-        s2 = guarded(impl_transform, 1 - which, x)
-        args = {'values': [float(v) for v in x], 'first': IMPLS[which], 'second': IMPLS[1 - which]}
+    shape_mismatch = {}
+    for i, (n, which, x, s, interp) in sorted(big.items()):
+        s2 = guarded(impl_transform, 1 - which, x, False, False, interp)
+        args = {'values': [float(v) for v in x], 'first': IMPLS[which], 'second': IMPLS[1 - which], 'interp': interp}
+        asite = 'agree' + ('[interp=%s]' % interp if interp is not None else '')
         if isinstance(s2, ImplError):
-            bad('agree', args, s2)
+            bad(asite, args, s2)
             continue
-        if s.shape != s2.shape:
-            rep.violation('agree', {'function': 'agree', 'args': args, 'impl': {'shape_1': list(s.shape), 'shape_2': list(s2.shape)}})
+        if s.shape != s2.shape:      # one violation per site: the shortest record found
+            if asite not in shape_mismatch or n < len(shape_mismatch[asite]['args']['values']):
+                shape_mismatch[asite] = {'function': 'agree', 'args': args, 'impl': {'shape_1': list(s.shape), 'shape_2': list(s2.shape)}}
             continue
         if n <= 17:
             rows, cols = list(range(len(s))), list(range(s.shape[1]))
@@ -336,8 +346,11 @@ def run(rep, rng, tier):
         tol = max(CELL_TOL * sumabs(x), FLOOR)
         sub = lambda m: [[m[r][t] for t in cols] for r in rows]
         coq = 'CAgree %s %s %s %s %s' % (qmat(sub(s.real)), qmat(sub(s.imag)), qmat(sub(s2.real)), qmat(sub(s2.imag)), q(tol))
-        cases.append(Case(coq, {'function': 'agree', 'args': args, 'impl': {'rows_compared': rows, 'columns_compared': cols}}, 'agree', nontrivial=True,
-                          klass='agree/' + ('all' if n <= 17 else 'sampled')))
+        cases.append(Case(coq, {'function': 'agree', 'args': args, 'impl': {'rows_compared': rows, 'columns_compared': cols}}, asite, nontrivial=True,
+                          klass=asite + '/' + ('all' if n <= 17 else 'sampled')))
+
+    for asite, rp in sorted(shape_mismatch.items()):
+        rep.violation(asite, rp)
 
     # ---- (c) marginal on implementation outputs
     n_marg = 10 if quick else 120
@@ -346,9 +359,10 @@ def run(rep, rng, tier):
         n = rng.choice([4, 5, 8, 9, 16, 17]) if k % 3 == 0 else rng.randint(2, 24 if quick else 40)
         which = k % 2
         x = record(rng, n, exact)
-        s = guarded(impl_transform, which, x)
-        site = 'marginal:' + IMPLS[which]
-        args = {'which': which, 'values': [float(v) for v in x]}
+        interp = [None, None, True, False, True][k % 5]
+        s = guarded(impl_transform, which, x, False, False, interp)
+        site = 'marginal:' + IMPLS[which] + ('[interp=%s]' % interp if interp is not None else '')
+        args = {'which': which, 'values': [float(v) for v in x], 'interp': interp}
         if isinstance(s, ImplError):
             bad(site, args, s)
             continue
@@ -424,9 +438,10 @@ def run(rep, rng, tier):
             n = gens.small_len(rng, 2, 120 if quick else 700)
         which = k % 2
         x = record(rng, n, exact)
-        out = guarded(impl_roundtrip, which, x)
-        site = 'roundtrip:' + IMPLS[which]
-        args = {'which': which, 'values': [float(v) for v in x]}
+        interp = [None, True, None, None, False, True, None][k % 7]
+        out = guarded(impl_roundtrip, which, x, interp)
+        site = 'roundtrip:' + IMPLS[which] + ('[interp=%s]' % interp if interp is not None else '')
+        args = {'which': which, 'values': [float(v) for v in x], 'interp': interp}
         if isinstance(out, ImplError):
             bad(site, args, out)
             continue
